@@ -150,10 +150,24 @@ def to_json(reader: AbstractSheetReader) -> str:
         "meta": {
             "version": "0.1.0",
         },
-        "sheets": {name: sheet.table.dict for name, sheet in reader.sheets.items()},
+        "sheets": {
+            name: table_to_json(sheet.table) for name, sheet in reader.sheets.items()
+        },
     }
 
     return json.dumps(book, ensure_ascii=False, indent=2)
+
+
+def table_to_json(table):
+    """
+    A sheet is written as the list of its rows, each an object keyed by the headers.
+    That form cannot carry the headers of a sheet without rows, which is written as
+    an object holding its headers and its rows instead; JSONSheetReader reads both.
+    """
+    if table.headers and not table.height:
+        return {"headers": list(table.headers), "rows": []}
+
+    return table.dict
 
 
 def prepare_dir(path):
